@@ -15,7 +15,7 @@ import pandas as pd
 
 from sim import kernel, seams, refmodels
 from sim.kernel import HarnessError
-from checks.c08_expgrad import gen_dataset, make_moment, index_key, derive_rows
+from checks.c08_expgrad import gen_dataset, make_moment, index_key, derive_rows, wrap, _labels
 
 PROPERTY = "C09"
 
@@ -82,19 +82,22 @@ def gen_plan(seed, index, tier):
         "ties": [rng.randint(0, 1) for _ in range(600)],
         "clock": [[rng.choice(["fwd", "fwd", "back", "stall"]), rng.choice([1e-3, 1.0, 100.0, 1e6])] for _ in range(130)],
         "stall_rerun": rng.random() < 0.25,
+        "yform": rng.choice(["nd", "nd", "list", "series"]), "gform": rng.choice(["nd", "nd", "list", "series"]),
+        "scramble_index": rng.random() < 0.4,
     }
     # history: an earlier fit of the same GridSearch object on the same X with other labels/groups
     plan["prior_rows"] = derive_rows(rng, rows) if (index >= 50 and not kind.startswith("BGL") and rng.random() < 0.25) else None
     return plan
 
 
-def build_X(rows_x, xform):
+def build_X(rows_x, xform, plan=None):
     x = [float(v) for v in rows_x]
     if xform == "nd":
         return np.array(x).reshape(-1, 1)
+    idx = _labels(plan, len(x), 1) if plan is not None else None
     if xform == "df2":
-        return pd.DataFrame({"x": x, "noise": [float((i * 7) % 3) for i in range(len(x))]})
-    return pd.DataFrame({"x": x})
+        return pd.DataFrame({"x": x, "noise": [float((i * 7) % 3) for i in range(len(x))]}, index=idx)
+    return pd.DataFrame({"x": x}, index=idx)
 
 
 def make_constraints(plan):
@@ -111,7 +114,7 @@ def fit_once(plan, ctx, stall=False):
     from fairlearn.reductions import GridSearch
 
     rows = plan["rows"]
-    X = build_X([r[0] for r in rows], plan["xform"])
+    X = build_X([r[0] for r in rows], plan["xform"], plan)
     y = np.array([r[2] for r in rows])
     g = np.array([f"g{r[1]}" for r in rows])
     if plan["moment"].startswith("BGL"):
@@ -134,7 +137,7 @@ def fit_once(plan, ctx, stall=False):
         ctx.fault("refit_history")
     ctx.oracle_log = []
     with ctx.clock_installed():
-        ok, ret, site = ctx.call(gs.fit, X, y, sensitive_features=g)
+        ok, ret, site = ctx.call(gs.fit, X, wrap(plan, y, "yform", 2), sensitive_features=wrap(plan, g, "gform", 3))
     ctx.clock.force_stall = False
     return ok, ret, site, gs, est, X, y, g
 
@@ -413,6 +416,12 @@ def shrink_candidates(plan):
         yield mod(xq=p["xq"][:1])
     if p["xform"] != "df":
         yield mod(xform="df")
+    if p.get("scramble_index"):
+        yield mod(scramble_index=False)
+    if p.get("yform", "nd") != "nd":
+        yield mod(yform="nd")
+    if p.get("gform", "nd") != "nd":
+        yield mod(gform="nd")
     if p["grid_limit"] != 2.0:
         yield mod(grid_limit=2.0)
     if p["cw"] != 0.5:
